@@ -59,8 +59,10 @@ def code_dependencies_outputs(code: Sequence[ast.AST]) -> Tuple[Set[str], Set[st
     """
     required_names: Set[str] = set()
     created_names: Set[str] = set()
-    created_names_original = created_names
     maybe_created_names: Set[str] = set()
+    # After a statement that may leave the code early, what is created is only maybe created.
+    # Names that are maybe created are still required by the code that reads them.
+    definite = True
 
     for node in code:
         temp_children = []
@@ -71,7 +73,7 @@ def code_dependencies_outputs(code: Sequence[ast.AST]) -> Tuple[Set[str], Set[st
             )
             children = [node.body, node.orelse]
             if any(core.is_blocking(child) for child in ast.walk(node)):
-                created_names = maybe_created_names
+                definite = False
 
         elif isinstance(node, ast.With):
             temp_children = tuple(node.items)
@@ -90,7 +92,7 @@ def code_dependencies_outputs(code: Sequence[ast.AST]) -> Tuple[Set[str], Set[st
             continue
 
         elif isinstance(node, (ast.Import, ast.ImportFrom)):
-            created_names.update(
+            (created_names if definite else maybe_created_names).update(
                 alias.name if alias.asname is None else alias.asname for alias in node.names
             )
             continue
@@ -133,7 +135,7 @@ def code_dependencies_outputs(code: Sequence[ast.AST]) -> Tuple[Set[str], Set[st
                     maybe_created_names.add(child.id)
 
             node_needed -= created_names
-            created_names.update(node_created)
+            (created_names if definite else maybe_created_names).update(node_created)
             maybe_created_names.update(created_names)
             required_names.update(node_needed)
 
@@ -155,10 +157,10 @@ def code_dependencies_outputs(code: Sequence[ast.AST]) -> Tuple[Set[str], Set[st
         node_needed -= created_names
         node_needed -= temp_created
         node_needed |= temp_needed
-        created_names.update(node_created)
+        (created_names if definite else maybe_created_names).update(node_created)
         required_names.update(node_needed)
 
-    return created_names_original, maybe_created_names, required_names
+    return created_names, maybe_created_names, required_names
 
 
 class _TraceResult(NamedTuple):
